@@ -638,6 +638,8 @@ class TreeMod(roundtrip.RTMod):
                         outs.append((OK, ("abs", "siter", tuple(items) + tuple(other[2][other[3]:]), 0), s))
                     elif other[0] == "abs" and other[1] == "svec":
                         outs.append((OK, ("abs", "siter", tuple(items) + tuple(other[2]), 0), s))
+                    elif other[0] == "enum" and other[1] in (SOME, NONE):       # Option as IntoIterator
+                        outs.append((OK, ("abs", "siter", tuple(items) + (tuple(other[2][:1]) if other[1] == SOME else ()), 0), s))
                     elif other[0] == "abs" and other[1] in ("lazy", "liveiter"):
                         for more, s2 in self.drain(I, s, other, n):
                             outs.append((OK, ("abs", "siter", tuple(items) + tuple(more), 0) if more is not None else unk("chain"), s2))
